@@ -77,6 +77,9 @@ FULL_ALPHABET: Tuple[Op, ...] = (
     ("rollback_tx", 1),
     ("failed_commit",),
 )
+# an already registered data file is registered again (a retried ingestion whose first attempt had landed):
+# the file is then listed by two manifests of the current snapshot
+REREGISTER_OPS: Tuple[Op, ...] = (("reregister_file", "newest"), ("reregister_file", "oldest"))
 STEP_BACK_OPS: Tuple[Op, ...] = (("append_sb",), ("delete_file_sb", "newest"))
 AGE_LONG: Op = ("age", 11 * 24 * 3600)
 
@@ -241,12 +244,14 @@ class Model:
         self.commits: List[Dict[str, Any]] = []  # every snapshot ever committed, in commit order
         self.byid: Dict[int, Dict[str, Any]] = {}
         self.origin: Dict[str, Tuple[int, Any]] = {}  # data file -> (adding snapshot id, its sequence number)
+        self.readded: Dict[str, Tuple[Tuple[int, Any], ...]] = {}  # data file -> later registrations of the same file
         self.versions: List[str] = []  # chain of published metadata files, last = current
         self.last_seq: int = 0
 
     def clone(self) -> "Model":
         m = Model()
         m.commits, m.byid, m.origin = list(self.commits), dict(self.byid), dict(self.origin)
+        m.readded = dict(self.readded)
         m.versions, m.last_seq = list(self.versions), self.last_seq
         return m
 
@@ -280,6 +285,11 @@ class Model:
             m.byid[sid] = c
             for fp in s.data_files:
                 m.origin.setdefault(fp, (sid, s.seq))
+            if op[0] == "reregister_file":
+                live = _live_files(pre, self)
+                if live:
+                    fp = live[0] if op[1] == "oldest" else live[-1]
+                    m.readded[fp] = m.readded.get(fp, ()) + ((sid, s.seq),)
         if post.mdfile is not None and (not m.versions or m.versions[-1] != post.mdfile):
             m.versions.append(post.mdfile)
         if post.md is not None:
@@ -631,7 +641,7 @@ def enabled_ops(v: Dict[str, Any], ts: TS, model: Model, txs: List[Dict[str, Any
     n = len(ts.snaps)
     for op in v["alphabet"]:
         k = op[0]
-        if k in ("delete_file", "delete_file_sb"):
+        if k in ("delete_file", "delete_file_sb", "reregister_file"):
             if not live or (op[1] == "oldest" and len(live) < 2):
                 continue  # with one live file `oldest` == `newest`
         elif k == "expire":
@@ -687,6 +697,15 @@ def apply_op(table: Any, op: Op, pre: TS, model: Model, ctx: Ctx) -> Dict[str, A
                 ENV.clock = round(ENV.clock - STEP_BACK_S, 6)
             with table.new_transaction() as tx:
                 tx.delete_files([victim])
+        elif k == "reregister_file":
+            live = _live_files(pre, model)
+            victim = live[0] if op[1] == "oldest" else live[-1]
+            out["victim"] = victim
+            dfs = [d for d in table._get_all_data_files() if d.file_path.lstrip("/") == victim.lstrip("/")]
+            if not dfs:
+                raise HarnessError(f"reregister_file: {victim} is not a live file of the table")
+            with table.new_transaction() as tx:
+                tx.append_files([dfs[0]])
         elif k == "expire":
             cut = expire_cutoff(op[1], pre)
             out["cutoff"] = cut
